@@ -25,7 +25,7 @@ HARNESS = "c42"
 TIMEOUT = 900
 MANIFEST = {
     "level_text": "PARTIAL (volatile, unchunked path; no controller restart). Kernel-checked inductive invariant (Inv.step, Lemmas/C42) over an executable Lean model of BOTH controllers field by field, the two controller links as bags with drop / duplicate / reorder steps, lossy FIFO endpoint mailboxes, ticks and the endpoints' documented contract: for every window, every script of any length, the Deliveries handed to the consumer endpoint are 1,2,3,... without gap, each is the message the producer controller stored under that sequence with the produced payload, k+1 is first presented only after k was confirmed, and a sequence is re-presented only while it is the unconfirmed in-flight one (C42_safety_holds, stated through the Spec monitor that also judges the real trace). Also proved: neither controller ever takes its terminal failure path (C42_producer_never_fails under the endpoint contract and a valid window, C42_consumer_never_fails), the producer's unconfirmed buffer is exactly confirmedSeq+1..currentSeq (PCons.handle), and a NON-temporal progress theorem (C42_progress_holds): from every reachable state the five-step fault-free continuation tick, tick, deliver Register, deliver RegistrationAck, deliver timeout Request makes the producer adopt the consumer's watermark and puts the oldest unconfirmed message back in flight — no reachable state is stuck. C42_holds is the conjunction. The model is tied to the code by replaying every handler of the REAL producerController/consumerController step by step under scripted faults and comparing sent messages and all state fields with the Lean handlers.",
-    "level_note": "Not in the model: chunked messages, the durable producer queue, controller restart/relocation, MaxInt64 sequence exhaustion, sender authentication (always succeeds: one controller pair), remoting. 'Eventually confirmed' is not a temporal theorem. Trusted: the differential only sees generated scripts; uuid freshness modelled by counters; time.Now() in the gap-request limiter is an explicit input (harness uses a one-hour interval so no timer fires).",
+    "level_note": "The chunked path (storeChunks, chunk run buffering/assembly, scanChunkRun / failWedgedChunkRun violations) is modelled in Model/C42c.lean and tied by the same step-by-step replay (including forged-message scripts for the terminal violation paths) and judged by a chunk-aware monitor (Spec/C42c), but the theorems are about the unchunked Model/C42 (the driver cross-checks the two models on every unchunked case). Not in the model: the durable producer queue, controller restart/relocation, MaxInt64 sequence exhaustion, sender authentication (always succeeds: one controller pair), remoting. 'Eventually confirmed' is not a temporal theorem. Trusted: the differential only sees generated scripts; uuid freshness modelled by counters; time.Now() in the gap-request limiter is an explicit input (harness uses a one-hour interval so no timer fires).",
     "technique": "Lean 4 inductive invariant over all fault schedules of an executable model of both controllers + per-step differential replay of the real handlers",
 }
 TRUSTED = [
@@ -44,6 +44,8 @@ PROFILES = {
     "fastprod": [("dcp0", 25), ("dpc0", 14), ("up", 40), ("uc1", 8), ("tc", 7), ("tp", 6)],
     "slowprod": [("dcp0", 25), ("dpc0", 25), ("up", 10), ("uc1", 25), ("tc", 10), ("tp", 5)],
     "ticky":    [("dcp0", 20), ("dpc0", 20), ("up", 18), ("uc1", 14), ("tc", 20), ("tp", 8)],
+    # chunked messages put several SequencedMessages on the producer->consumer link per job
+    "pcheavy":  [("dcp0", 16), ("dpc0", 42), ("up", 18), ("uc1", 14), ("tc", 7), ("tp", 3)],
 }
 
 
@@ -80,9 +82,42 @@ def gen_script(rng, n, fault_rate, profile="fair"):
 CLEAN = "4 1 dcp0 dpc0 dcp0 up up dpc0 uc1 up up dpc0 uc1 dcp0 up up dpc0 uc1 tc tc dcp0 dpc0 dcp0"
 
 
+CHUNKED = [
+    # a 100-byte frame in 32-byte chunks (4 sequences), then a whole message, delivered in order
+    "4 1 m32 L100,40 dcp0 dpc0 dcp0 up up dpc0 dpc0 dpc0 dpc0 uc1 dcp0 up up dpc0 uc1 dcp0",
+    # interior chunk lost and recovered through the gap / timeout request; chunks arrive out of order
+    "6 0 m40 L150,90 dcp0 dpc0 dcp0 up up dpc2 xpc1 dpc1 dpc0 tc dcp0 dcp0 dpc0 dpc0 dpc0 dpc0 uc1 dcp0 up up dpc1 dpc0 dpc0 uc1",
+    # a message needing more chunks than the window: terminal on the producer side
+    "2 0 m32 L200 dcp0 dpc0 dcp0 up tp dcp0",
+    # forged whole message inside a chunk run: the wedged run is failed terminally on the tick
+    "6 0 m32 L100 dcp0 dpc0 dcp0 up up dpc0 dpc0 fw3 dpc0 dpc0 tc tc uc1",
+    # forged first chunk inside a run, completed run -> assemble reports the violation
+    "6 0 m32 L100 dcp0 dpc0 dcp0 up up dpc0 ff2 dpc0 dpc0 dpc0 tc",
+]
+
+
+def chunk_case(rng, ops_fn):
+    """a case on a flow with chunking: small chunk size, frames from just-below to several chunks"""
+    mx = rng.choice([32, 40, 64, 64])
+    w = rng.choice([2, 3, 4, 4, 6, 8])
+    lens = [rng.choice([48, mx, mx + 1, 2 * mx, 2 * mx + 7, 3 * mx - 1, 3 * mx + 5, 5 * mx]) for _ in range(rng.randint(1, 4))]
+    lens = [max(l, 48) for l in lens]   # the encoded StringValue frame cannot be shorter than ~45 bytes
+    ops = ops_fn()
+    if rng.random() < 0.25:
+        # forged messages under the current session: the consumer controller's structural checks must fail terminally
+        for _ in range(rng.randint(1, 3)):
+            ops.insert(rng.randrange(len(ops) // 3, len(ops) + 1), rng.choice(["fw", "ff"]) + str(rng.randint(1, 9)))
+    return f"{w} {rng.choice([0, 1])} m{mx} L{','.join(map(str, lens))} " + " ".join(ops)
+
+
 def gen_cases(rng, tier):
     n = 260 if tier == "quick" else 4000
-    cases = [CLEAN]
+    cases = [CLEAN] + CHUNKED
+    for _ in range(n // 3):
+        ln = rng.choice([30, 60, 120, 200])
+        rate = rng.choice([0.0, 0.05, 0.15, 0.3])
+        prof = rng.choice(["fair", "fair", "fastprod", "pcheavy"])
+        cases.append(chunk_case(rng, lambda: gen_script(rng, ln, rate, prof)))
     for _ in range(n):
         w = rng.choice([1, 1, 2, 2, 3, 4, 4, 5, 6, 8, 20])
         dc = rng.choice([0, 1])
@@ -95,6 +130,8 @@ def gen_cases(rng, tier):
 
 def search_cases(rng, tier):
     cases = []
+    for _ in range(500 if tier == "quick" else 2000):
+        cases.append(chunk_case(rng, lambda: gen_script(rng, rng.choice([60, 120, 240]), rng.choice([0.05, 0.2, 0.35]), rng.choice(["fair", "pcheavy"]))))
     for _ in range(1500 if tier == "quick" else 6000):
         w = rng.choice([1, 2, 2, 3, 4, 6])
         prof = rng.choice(["fair", "fastprod", "ticky"])
@@ -106,7 +143,7 @@ def compare(case, impl, model):
     if impl == model:
         return None
     a, b = impl.split(";"), model.split(";")
-    ops = ["init"] + case.split()[2:]
+    ops = ["init"] + [o for o in case.split()[2:] if not (o[0] in "mL" and o[1:2].isdigit())]
     for i, (x, y) in enumerate(zip(a, b)):
         if x != y:
             return f"step {i} ({ops[i] if i < len(ops) else '?'}): impl={x!r} model={y!r}"
@@ -128,12 +165,15 @@ def deliveries(impl):
 def oracle(case, impl, judge):
     if impl.startswith("CRASH") or impl.startswith("panic") or impl.startswith("setup-error"):
         return "harness failed: " + impl[:200]
+    if any(o[:2] in ("fw", "ff") for o in case.split()[2:]):
+        return None    # forged messages: differential only, the links are not faithful (see Driver/C42c.lean)
     if judge is not None:
         return judge_verdict(judge, ("order:",))
     # mirror of the order part of Spec.C42.Mon (used only when the Lean driver is unavailable)
     last = 0
+    chunked = " m" in case and " L" in case
     for (_, mid, seq, pl) in deliveries(impl):
-        if seq not in (last, last + 1) or seq < 1:
+        if (seq < last) if chunked else (seq not in (last, last + 1) or seq < 1):
             return f"order: Delivery seq={seq} after {last}"
         if pl != 1000 + 7 * mid:
             return f"order: Delivery seq={seq} carries payload {pl} for message {mid}"
@@ -166,9 +206,10 @@ def is_trivial(case, impl):
 
 def tag(case, impl):
     ops = case.split()[2:]
+    chunked = "chunked " if len(ops) > 1 and ops[0].startswith("m") and ops[1].startswith("L") else ""
     faults = sum(1 for o in ops if o[0] in "ux" and o not in ("up", "uc1"))
     nd = len({d[2] for d in deliveries(impl or "")})
-    return f"faults={'0' if faults == 0 else '1-5' if faults < 6 else '6+'} delivered={'0' if nd == 0 else '1-3' if nd < 4 else '4-9' if nd < 10 else '10+'}"
+    return chunked + f"faults={'0' if faults == 0 else '1-5' if faults < 6 else '6+'} delivered={'0' if nd == 0 else '1-3' if nd < 4 else '4-9' if nd < 10 else '10+'}"
 
 
 # no `shrink`: check.py's shrinker also accepts candidates that merely differ from the model, which would
